@@ -150,13 +150,48 @@ type orderRun struct {
 	Steps      int
 	ClockReads int
 	RandDraws  int
+	ProcReads  int // how often the library asked for the number of processors
+	Spawned    int // goroutines the library started during the call
+	Deadlock   string
 }
 
 // envFault is what the environment of one call does besides map order: the
-// seed of the pseudo-random stream and jumps of the simulated clock.
+// seed of the pseudo-random stream, jumps of the simulated clock, the number of
+// processors the library is told about, and - when the library starts
+// goroutines of its own - the schedule of those goroutines.
 type envFault struct {
 	RandSeed   uint64               `json:"rand_seed,omitempty"`
 	ClockJumps []verifsim.ClockJump `json:"clock_jumps,omitempty"`
+	Procs      int                  `json:"procs,omitempty"`
+	Sched      *schedFault          `json:"schedule,omitempty"`
+}
+
+// schedFault: the call runs as the only caller under the cooperative scheduler;
+// the goroutines the library starts are scheduled with this time slice and the
+// next one to run is drawn from this stream.
+type schedFault struct {
+	Quantum int    `json:"quantum"`
+	Pick    uint64 `json:"pick"`
+}
+
+func (e envFault) String() string {
+	var parts []string
+	if e.RandSeed != 0 {
+		parts = append(parts, fmt.Sprintf("random seed %d", e.RandSeed))
+	}
+	if len(e.ClockJumps) > 0 {
+		parts = append(parts, fmt.Sprintf("clock jumps %v", e.ClockJumps))
+	}
+	if e.Procs != 0 {
+		parts = append(parts, fmt.Sprintf("%d processors reported to the library", e.Procs))
+	}
+	if e.Sched != nil {
+		parts = append(parts, fmt.Sprintf("the library's own goroutines scheduled with time slice %d, pick stream %d", e.Sched.Quantum, e.Sched.Pick))
+	}
+	if len(parts) == 0 {
+		return "the default environment"
+	}
+	return strings.Join(parts, ", ")
 }
 
 // runOrder executes the case's operation once under the given order tape.
@@ -166,15 +201,54 @@ func runOrder(obj *Object, datum interface{}, op string, tape []uint64) orderRun
 
 func runOrderEnv(obj *Object, datum interface{}, op string, tape []uint64, env envFault) orderRun {
 	ctx := &verifsim.OpCtx{Obj: 0, Tape: tape, RandSeed: env.RandSeed, ClockJumps: env.ClockJumps}
-	verifsim.BeginOp(ctx)
+	pr0, sp0 := verifsim.ProcReads(), verifsim.Spawned()
+	verifsim.SetProcs(env.Procs)
 	var out Outcome
-	if op == "exec" {
-		out = obj.Execute(datum)
-	} else {
-		out = obj.Evaluate(datum)
+	call := func() {
+		verifsim.BeginOp(ctx)
+		if op == "exec" {
+			out = obj.Execute(datum)
+		} else {
+			out = obj.Evaluate(datum)
+		}
+		verifsim.EndOp()
 	}
-	verifsim.EndOp()
-	return orderRun{Out: out, Decisions: ctx.Decisions, N: ctx.NDecisions, Steps: ctx.Steps, ClockReads: ctx.ClockReads, RandDraws: ctx.RandDraws}
+	deadlock := ""
+	if env.Sched == nil {
+		call()
+	} else {
+		// the call is the only planned task of a scheduled run
+		dead := make(chan struct{})
+		verifsim.SetAbort(func(reason string) {
+			deadlock = reason
+			close(dead)
+			verifsim.Abandon()
+		})
+		verifsim.SetHardCap(verifsim.Steps() + 50000000)
+		verifsim.StartRun(1, 0, env.Sched.Quantum, nil)
+		verifsim.SetPick(env.Sched.Pick)
+		done := make(chan struct{})
+		go func() {
+			verifsim.TaskEnter(0)
+			call()
+			verifsim.TaskExit(0)
+			close(done)
+		}()
+		select {
+		case <-done:
+			verifsim.WaitChildren()
+		case <-dead:
+		}
+		verifsim.SetHardCap(0)
+		verifsim.SetAbort(nil)
+		verifsim.BeginMain()
+	}
+	verifsim.SetProcs(0)
+	if deadlock != "" {
+		out = Outcome{Op: op, Panic: "simulator: " + deadlock + " among the goroutines of the call"}
+	}
+	return orderRun{Out: out, Decisions: ctx.Decisions, N: ctx.NDecisions, Steps: ctx.Steps, ClockReads: ctx.ClockReads, RandDraws: ctx.RandDraws,
+		ProcReads: verifsim.ProcReads() - pr0, Spawned: verifsim.Spawned() - sp0, Deadlock: deadlock}
 }
 
 // caseRunner executes the case's operation under an order tape. Without a
@@ -408,7 +482,7 @@ func RunC14Case(c C14Case, seed uint64, tier string) C14Result {
 	if base.Out.Skip {
 		return res
 	}
-	if base.N == 0 && base.ClockReads == 0 && base.RandDraws == 0 {
+	if base.N == 0 && base.ClockReads == 0 && base.RandDraws == 0 && base.ProcReads == 0 && base.Spawned == 0 {
 		return res
 	}
 	// (measured on an object of its own: the explored object's history must
@@ -485,6 +559,39 @@ func RunC14Case(c C14Case, seed uint64, tier string) C14Result {
 				e := env
 				res.Violation = &C14Diff{TapeA: []uint64{}, TapeB: []uint64{}, OutA: ref.Out, OutB: run.Out, Env: &e}
 				return res
+			}
+		}
+	}
+	// the library asked how many processors there are, or started goroutines of
+	// its own: the outcome must depend neither on the answer nor on how those
+	// goroutines are scheduled
+	if base.ProcReads > 0 || base.Spawned > 0 {
+		ref := cr.runEnv(envFault{})
+		res.EnvRuns++
+		procs := []int{0}
+		if base.ProcReads > 0 {
+			procs = []int{2, 4, 8, 3}
+		}
+		quanta := []int{1, 2, 3, 5, 8, 13, 40, 0}
+		for _, n := range procs {
+			envs := []envFault{{Procs: n}}
+			for i, q := range quanta {
+				envs = append(envs, envFault{Procs: n, Sched: &schedFault{Quantum: q, Pick: 1 + r.Uint64()%1000000}})
+				if i%2 == 1 {
+					envs[len(envs)-1].Sched.Pick = 0
+				}
+			}
+			for i, env := range envs {
+				run := cr.runEnv(env)
+				res.EnvRuns++
+				if !sameC14(run.Out, ref.Out) {
+					e := env
+					res.Violation = &C14Diff{TapeA: []uint64{}, TapeB: []uint64{}, OutA: ref.Out, OutB: run.Out, Env: &e}
+					return res
+				}
+				if i == 0 && run.Spawned == 0 {
+					break // no goroutines with this many processors: nothing to schedule
+				}
 			}
 		}
 	}
@@ -675,7 +782,7 @@ func workerC14(cfg WorkerCfg) int {
 			detail := fmt.Sprintf("%s %q on datum %s: canonical order gives %s, order tape %v gives %s", min.Op, min.Obj.Expr, min.Datum.String(), diff.OutA, diff.TapeB, diff.OutB)
 			if diff.Env != nil {
 				kind, key = "environment-dependent", fmt.Sprintf("C14/environment/%s/%s", min.Op, min.Family)
-				detail = fmt.Sprintf("%s %q on datum %s: a fresh object's call gives %s; the same call with random seed %d and clock jumps %v gives %s", min.Op, min.Obj.Expr, min.Datum.String(), diff.OutA, diff.Env.RandSeed, diff.Env.ClockJumps, diff.OutB)
+				detail = fmt.Sprintf("%s %q on datum %s: a fresh object's call gives %s; the same call with %s gives %s", min.Op, min.Obj.Expr, min.Datum.String(), diff.OutA, diff.Env.String(), diff.OutB)
 			}
 			cfg.Emit(Violation{Type: "violation", Property: "C14", Engine: "ordersim", Kind: kind,
 				Key:    key,
